@@ -17,3 +17,79 @@ step.register_matrix(
     quick=lambda key, n, L, by: L == 2 and (n <= 1 or (n == 2 and key in ("u_same", "d_same"))),
     split=lambda key, n, L, by: n >= 1 and (by or n >= 2),
     tags=lambda n: ["accepted", "q_new"] + (["append", "extend", "contained"] if n else []))
+
+
+# ---- Layer 2: the readers project the counter (explicit M3 states: concrete run lengths, symbolic starts) ---------------
+import dynetx as dn  # noqa: E402
+from . import build, inv, models  # noqa: E402
+from .h_c10 import SHAPES as L2_SHAPES, mk as l2_mk  # noqa: E402
+from .models import reach, sbool  # noqa: E402
+
+_w = dn.DynGraph()
+_w.add_interaction(1, 2, 0, 3)
+_w.temporal_snapshots_ids(), _w.interactions_per_snapshots(), _w.interactions_per_snapshots(1), _w.avg_number_of_nodes()
+dn.temporal_snapshots_ids(_w), dn.interactions_per_snapshots(_w), dn.interactions_per_snapshots(_w, 1)
+_w = dn.DynDiGraph()
+_w.add_interaction(1, 2, 0, 3)
+_w.temporal_snapshots_ids(), _w.interactions_per_snapshots(), _w.interactions_per_snapshots(1), _w.avg_number_of_nodes()
+
+
+def T_l2(s0: int, s1: int, s2: int, q: int) -> bool:
+    pass
+
+
+def readers_body(cfg, s0, s1, s2, q):
+    g, pairs = l2_mk(cfg, [s0, s1, s2])
+    ids = g.temporal_snapshots_ids()
+    if list(dn.temporal_snapshots_ids(g)) != list(ids):
+        return False
+    prev = None
+    for k in ids:
+        if prev is not None and not sbool(prev < k):
+            return False                                   # ascending, duplicate free
+        prev = k
+        if not any(sbool(inv.present_at(tl, k)) for (u, v, tl) in pairs):
+            return False                                   # every id is inhabited
+    inst = 0
+    for (u, v, tl) in pairs:
+        for ab in tl:
+            k = ab[0]
+            while sbool(k <= ab[1]):
+                if not any(sbool(k == i) for i in ids):
+                    return False                           # every inhabited instant is an id
+                k = k + 1
+                inst += 1
+    if len(ids) < inst:
+        reach("shared_instant")
+    cnt_q = sum(1 for (u, v, tl) in pairs if sbool(inv.present_at(tl, q)))
+    for got in (g.interactions_per_snapshots(q), dn.interactions_per_snapshots(g, q), g.interactions_per_snapshots(t=q)):
+        if not sbool(got == cnt_q):
+            return False
+    if cnt_q:
+        reach("q_inhabited")
+    for allc in (g.interactions_per_snapshots(), dn.interactions_per_snapshots(g)):
+        if len(allc) != len(ids):
+            return False
+        for k in ids:
+            c = sum(1 for (u, v, tl) in pairs if sbool(inv.present_at(tl, k)))
+            if k not in allc or not sbool(allc[k] == c):
+                return False
+    tot = sum(g.number_of_nodes(k) for k in ids)
+    a = g.avg_number_of_nodes()
+    return a == tot / len(ids) or sbool(a * len(ids) == tot)
+
+
+for _directed in (False, True):
+    for _shape in L2_SHAPES:
+        if _shape.startswith("recip") and not _directed:
+            continue
+        if _shape == "unclosed2":
+            continue
+        REG.add("readers_%s_%s" % ("d" if _directed else "u", _shape), T_l2, readers_body, cfg=dict(directed=_directed, shape=_shape),
+                tier="quick", timeout=900,
+                tags=["q_inhabited"] + (["shared_instant"] if len(L2_SHAPES[_shape]) > 1 else []), twins=1,
+                bounds="%s with interactions %s (u, v, run lengths-1, closing flags), unbounded symbolic run starts (all relative "
+                       "positions), explicit counter; unbounded q" % ("DynDiGraph" if _directed else "DynGraph", L2_SHAPES[_shape]),
+                what="temporal_snapshots_ids() is strictly ascending and equals the set of inhabited instants; "
+                     "interactions_per_snapshots(q) is the number of interactions present at q (0 elsewhere), without argument the "
+                     "same for every id; avg_number_of_nodes() is the mean of number_of_nodes(t) over the ids; dn.* forms agree")
